@@ -360,48 +360,94 @@ def crashSteps (point : String) (nth : Nat) : Option Nat :=
   else if point == "delete:file-removed" then some (nth + 1)
   else none
 
+def subsets {α} : List α → List (List α)
+  | [] => [[]]
+  | x :: r => (subsets r) ++ (subsets r).map (x :: ·)
+
+def insertAll {α} (x : α) : List α → List (List α)
+  | [] => [[x]]
+  | y :: r => (x :: y :: r) :: (insertAll x r).map (y :: ·)
+
+def perms {α} : List α → List (List α)
+  | [] => [[]]
+  | x :: r => (perms r).flatMap (insertAll x)
+
+/-- Hook points and micro-steps of one `Delete`, in the code's order. -/
+def deleteEvents (prs : Bytes → Option Bundle) (s : State) (id : Id) : List (Sum String Step) :=
+  match plan prs s (.delete id) with
+  | [] => []
+  | idx :: removes =>
+    [.inl "delete:before-index", .inr idx] ++
+      removes.flatMap fun st => [.inl "delete:before-remove", .inr st, .inl "delete:file-removed"]
+
+/-- `DeleteExpired` deleting `ids` in this order, killed at the `nth` hit of `point` (counted over
+the whole sweep); the complete sweep if the point is not hit that often. -/
+def sweepCrash (prs : Bytes → Option Bundle) (point : String) (nth : Nat) (s : State) (ids : List Id) : State :=
+  let rec walk (evs : List (Sum String Step)) (s : State) (cnt : Nat) : State × Nat × Bool :=
+    match evs with
+    | [] => (s, cnt, false)
+    | .inl h :: r =>
+      if h == point then
+        if cnt + 1 == nth then (s, cnt + 1, true) else walk r s (cnt + 1)
+      else walk r s cnt
+    | .inr st :: r => walk r (applyStep s st) cnt
+  let rec go (ids : List Id) (s : State) (cnt : Nat) : State :=
+    match ids with
+    | [] => s
+    | id :: r =>
+      let (s', cnt', stop) := walk (deleteEvents prs s id) s cnt
+      if stop then s' else go r s' cnt'
+  go ids s 0
+
 def handleCrash (d : DState) (pt desc exit : String) (dump : List String) : DState × String :=
   let (point, nth) := match pt.splitOn ":" |>.reverse with
     | n :: rest => (":".intercalate rest.reverse, n.toNat?.getD 0)
     | [] => ("", 0)
-  match parseDesc desc, parseDump dump, crashSteps point nth with
-  | some (.cmd c), some g, some k =>
+  match parseDesc desc, parseDump dump with
+  | some (.cmd c), some g =>
     let d := match c with
       | .op (.push b) => learn d [b]
       | .op (.replace b) => learn d [b]
       | _ => d
-    -- the primitive operation the child was killed in
-    let prim : Option Op := match c with
-      | .op o => some o
-      | .sweep now => match (d.spec.filter (fun e => decide (e.2.expires < now))).map (·.1) with
-        | [id] => some (.delete id)
-        | _ => none
-      | .reopen => none
-    match prim with
-    | none => (d, "skip crash-sweep-not-single")
-    | some o =>
-      let specAfter := specStep d.spec c
-      let modelAfter :=
-        if exit == "77" then crash (mkParse d.now d.table) k d.model o else step (mkParse d.now d.table) d.model c
-      let pick (spec : SMap) := { d with model := modelAfter, spec := spec }
-      -- Spec: the surviving content is the one before or the one after the operation; a finished
-      -- child (exit 0) acknowledged the operation: after.
-      let cands := if exit == "77" then [d.spec, specAfter] else if exit == "0" then [specAfter] else []
-      match cands.find? (fun m => (judge (pick m) m g).isNone) with
+    let prs := mkParse d.now d.table
+    let specAfter := specStep d.spec c
+    let full := step prs d.model c
+    -- Spec candidates: what may be visible after the kill. One operation: the content before or
+    -- after it. An expiry sweep (one Delete per expired record, in an unspecified order): any set
+    -- of the expired records is gone, everything else is as before. A child that finished (exit 0)
+    -- acknowledged the operation: after.
+    let (specCands, modelCands) : List SMap × List State :=
+      if exit == "0" then ([specAfter], [full])
+      else if exit != "77" then ([], [])
+      else match c with
+        | .op o =>
+          ([d.spec, specAfter], match crashSteps point nth with
+            | some k => [crash prs k d.model o]
+            | none => [])
+        | .sweep now =>
+          let expired := (d.spec.filter (fun e => decide (e.2.expires < now))).map (·.1)
+          ((subsets expired).map (fun gone => d.spec.filter (fun e => !gone.contains e.1)),
+           (perms (expiredIds d.model now)).map (sweepCrash prs point nth d.model))
+        | .reopen => ([d.spec], [d.model])
+    match specCands.find? (fun m => (judge { d with spec := m } m g).isNone) with
+    | none =>
+      let d' := { d with model := full, spec := specAfter }
+      let unreadable := g.items.any fun it => it.parts.any (·.data == "!")
+      let why := match judge d' specAfter g with | some (c, det) => s!"{c} {det}" | none => ""
+      if exit != "77" && exit != "0" then (d', s!"diff child-failed exit={exit}")
+      else if unreadable then (d', s!"specfail crash-{point}-unreadable-record {why}")
+      else (d', s!"specfail crash-{point}-neither-old-nor-new {why}")
+    | some m =>
+      let dm := { d with spec := m }
+      if d.modelOff then ({ dm with model := full }, "skip model-diverged") else
+      match modelCands.find? (fun s => (diffDump dm s (modelDump dm s false) g).isNone) with
+      | some s => ({ dm with model := s }, "ok")
       | none =>
-        let d' := pick specAfter
-        let unreadable := g.items.any fun it => it.parts.any (·.data == "!")
-        let why := match judge d' specAfter g with | some (c, det) => s!"{c} {det}" | none => ""
-        if exit != "77" && exit != "0" then (d', s!"diff child-failed exit={exit}")
-        else if unreadable then (d', s!"specfail crash-{point}-unreadable-record {why}")
-        else (d', s!"specfail crash-{point}-neither-old-nor-new {why}")
-      | some m =>
-        let d' := pick m
-        if d.modelOff then (d', "skip model-diverged") else
-        match diffDump d' modelAfter (modelDump d' modelAfter false) g with
-        | some det => (d', s!"diff crash {point}:{nth} {det}")
-        | none => (d', "ok")
-  | _, _, _ => (d, "skip parse")
+        match modelCands with
+        | s :: _ => ({ dm with model := s },
+            s!"diff crash {point}:{nth} {(diffDump dm s (modelDump dm s false) g).getD ""}")
+        | [] => ({ dm with model := full }, s!"diff crash unknown-hook-point {point}")
+  | _, _ => (d, "skip parse")
 
 def handleConc (d : DState) (p1 p2 parked blocked res : String) (dump : List String) : DState × String :=
   match parsePush p1, parsePush p2, parseDump dump with
